@@ -89,6 +89,7 @@ type Run struct {
 	objs       map[string]value // per-path engine objects (stub state)
 	counter    int
 	panicSite  string
+	ufCalls    map[string][]ufCall
 	clockFixed value
 	model      Model
 	mvalid     map[string]bool
